@@ -358,7 +358,7 @@ example : checkWitnessSet thash tverify false none (some [⟨k 7, s 7⟩, ⟨k 8
     [.key 7] [] = .err .vkWrongSignature := by decide
 example : checkWitnessSet thash tverify true (some [3]) none [] [] = .err .reqSignerMissing := by decide
 example : checkWitnessSet thash tverify false none (some [⟨k 7, s 7⟩]) [.key 8] [] = .err .vkWitnessMissing := by decide
-example : checkWitnessSet thash tverify false none (some [⟨[7], s 7⟩]) [.key 7] [] = .panic := by decide
+example : checkWitnessSet thash tverify false none (some [⟨[7], s 7⟩]) [.key 7] [] = .err .vkWrongSignature := by decide
 example : checkWitnessesShelley thash tverify (some [⟨k 7, s 7⟩]) [.key 7, .script true] true [] = .ok () := by decide
 /-- the old early return accepted a garbage witness behind a valid uncovered one; the fixed pass rejects it -/
 example : checkRemainingOld tverify [] [(false, ⟨k 8, s 8⟩), (false, ⟨k 9, s 1⟩)] = .ok () := by decide
